@@ -76,6 +76,7 @@ type RunCfg struct {
 	SolverBin  string
 	TimeoutMs  int
 	LiveTimeoutMs int
+	Deadline      time.Time // stop exploring (and report what was found) after this instant
 	Thorough   bool
 	MaxPaths   int
 	LoopBound  int
@@ -367,7 +368,7 @@ func runHarness(L *Loaded, fn *ssa.Function, cfg *RunCfg) *HarnessRun {
 						run.Unsupported = append(run.Unsupported, out.msg)
 					}
 				}
-				tooMany := run.Paths >= cfg.MaxPaths
+				tooMany := run.Paths >= cfg.MaxPaths || (!cfg.Deadline.IsZero() && time.Now().After(cfg.Deadline))
 				run.mu.Unlock()
 				switch out.kind {
 				case "panic":
@@ -401,7 +402,11 @@ func runHarness(L *Loaded, fn *ssa.Function, cfg *RunCfg) *HarnessRun {
 	}
 	wg.Wait()
 	if stop {
-		run.Bound = append(run.Bound, fmt.Sprintf("path limit %d reached", cfg.MaxPaths))
+		if !cfg.Deadline.IsZero() && time.Now().After(cfg.Deadline) {
+			run.Bound = append(run.Bound, "time limit of the run reached")
+		} else {
+			run.Bound = append(run.Bound, fmt.Sprintf("path limit %d reached", cfg.MaxPaths))
+		}
 	}
 	run.Wall = time.Since(t0)
 	return run
